@@ -5,6 +5,7 @@ import Orda.Proofs.MapCounter
 import Orda.Proofs.Rga
 import Orda.Proofs.RgaFull
 import Orda.Proofs.DocConv
+import Orda.Proofs.DocArr
 namespace Orda.Props.C01
 open Orda
 
@@ -118,5 +119,28 @@ theorem doc_ops_on_different_parents_commute {d : Doc} {l l' : List ObjOp} (hp :
 
 /-- the hypotheses are met by the empty document -/
 theorem doc_empty_ready : Doc.empty.WF ∧ DC.ViewOK Doc.empty := ⟨DC.wf_doc_empty, DC.viewOK_empty⟩
+
+/-! ### document: array operations (insert / update / delete on any array node, nested values, batches) -/
+
+open Orda.DA Orda.DC in
+/-- document arrays: two replicas that apply the same remote array operations (single- and multi-target,
+    values of any nesting depth, on any arrays of the document) in ANY order reach `ASim`-equal node tables
+    (`DC.Sim` with the creation id of a slot's child erased — which child node carries a slot's tombstone is
+    not observable) and show the same JSON value -/
+theorem doc_array_ops_converge {d : Doc} {L L' : List AOp} (hp : L.Perm L') (h : GoodE d (L.flatMap flat))
+    (hb : ∀ op ∈ L, BatchOK op) :
+    ASim (applyAllA d L) (applyAllA d L') ∧
+      (ViewOK d → (∀ e ∈ L.flatMap flat, EKeysND e) →
+        (applyAllA d L).view.canon = (applyAllA d L').view.canon) := arr_converge hp h hb
+
+open Orda.DA in
+/-- … and the ORDER of an array's slots is the RGA order of the inserts into it, for every causal arrival
+    order (by reduction to `rga_converge`; holds also when operations create the slots later ones address) -/
+theorem doc_array_order_converges (d : Doc) (p : Ts) (M0 : List AIns) (ops ops' : List AOp) (hperm : ops.Perm ops')
+    (hp : (d.findArr p).isSome) (hk : ∀ o ∈ ops, p.key ≠ o.ts.key)
+    (hbase : slotIds d p = foldIds [] M0)
+    (hc : ACausal (M0 ++ ops.filterMap (insOn p))) (hc' : ACausal (M0 ++ ops'.filterMap (insOn p))) :
+    slotIds (applyAllA d ops) p = slotIds (applyAllA d ops') p :=
+  arr_order_converge d p M0 ops ops' hperm hp hk hbase hc hc'
 
 end Orda.Props.C01
